@@ -385,6 +385,15 @@ def concrete_playback(slot, prop, h, logdir, failed_checks=()):
             pm = _norm(r["panic"])
             r["matches_failed_check"] = any(w and (w in pm or pm in w) for w in wanted if len(w) > 8)
             if not r["matches_failed_check"]:
+                # assert!/debug_assert! messages with format arguments: Kani keeps the "{name}" placeholder, the native
+                # panic has the value; compare the literal text before the first placeholder
+                for fc in failed_checks:
+                    d = fc.get("description") or ""
+                    if "{" in d:
+                        lit = _norm(d.split("{")[0])
+                        if len(lit) > 10 and lit in pm:
+                            r["matches_failed_check"] = True
+            if not r["matches_failed_check"]:
                 loc, _, msg = (r["panic"] or "").partition(": ")
                 msg = msg or r["panic"]
                 # r["panic"] = "<file>:<line>:<col>: <message first line>"
